@@ -5,6 +5,6 @@ package main
 type GenCall struct{ Extended bool }
 
 func attachRecorder(w interface{}, sink *[]GenCall) bool { return false }
-func encodeCalls(calls []GenCall) string              { return "-" }
+func encodeCalls(calls []GenCall) string                 { return "-" }
 
 const hooksAvailable = false
